@@ -221,10 +221,10 @@ def yqh_batch(reqs, binary=None, timeout=600, env=None):
         data = "".join(json.dumps(r) + "\n" for r in reqs[start:]).encode()
         try:
             p = subprocess.run([binary], input=data, stdout=subprocess.PIPE, stderr=subprocess.PIPE, timeout=timeout, env=env)
-            lines = p.stdout.decode("utf-8", "replace").splitlines()
+            lines = [l for l in p.stdout.decode("utf-8", "replace").split("\n") if l.strip()]   # not splitlines(): U+0085/U+2028 are data
             err = p.stderr.decode("utf-8", "replace")[-2000:]
         except subprocess.TimeoutExpired as e:
-            lines = (e.stdout or b"").decode("utf-8", "replace").splitlines()
+            lines = [l for l in (e.stdout or b"").decode("utf-8", "replace").split("\n") if l.strip()]
             err = "batch timeout"
         n = 0
         for ln in lines:
